@@ -267,6 +267,7 @@ impl Check for C01 {
                 sweep0(3, Level::Medium),
                 sweep(3, Level::Full),
                 sweep(4, Level::Medium),
+                sweep(5, Level::Core),
                 sweep(2, Level::Mixed),
                 sweep(3, Level::Mixed),
                 sweep(4, Level::Mixed),
@@ -277,7 +278,7 @@ impl Check for C01 {
         Meta {
             bound: match tier {
                 Tier::Quick => "all programs of N statements in every composition over lines 10,20,..: N<=2 over the full alphabet, N=3 over the medium alphabet, N=4 over the control-transfer core, N<=3 over the mixed-feature alphabet (control flow + DATA/READ/RESTORE, DEF FN and calls, arrays, strings, SWAP, CLEAR, ERASE, INPUT; 32 statements); each in three modes (RUN, TRON+RUN, last line as a direct statement list over the rest) and with every reply script over {0,1,2,3} up to two INPUTs".into(),
-                Tier::Thorough => "as quick with N<=3 over the full alphabet, N=4 over the medium alphabet, N=4 over the mixed-feature alphabet (N=5 over the core was measured at more than an hour for no additional finding and is not part of the tier)".into(),
+                Tier::Thorough => "as quick with N<=3 over the full alphabet, N=4 over the medium alphabet, N=5 over the core, N=4 over the mixed-feature alphabet".into(),
             },
             rule: "a case is (program, mode, reply script); distinct_nontrivial = distinct reference transcripts among cases whose reference run took at least one conditional branch, loop test or computed jump".into(),
             states_note: "transitions = reference-interpreter statement steps (counter ref_steps); every case is one implementation trace compared with the model trace".into(),
